@@ -62,6 +62,22 @@ pub proof fn lemma_pre_mono(g: &SymbolicAsyncGraph, x: ISet<Pt>, y: ISet<Pt>)
 
 
 // ---------- weak-until duality (C13) ----------
+// one step of the classical EU / EF iteration stays below every closed set (hint of eval_eu / eval_ef; stated for the set BEFORE the
+// update so that the proof does not depend on the text of the update statement)
+pub proof fn lemma_eu_classical_step(g: &SymbolicAsyncGraph, a: ISet<Pt>, b: ISet<Pt>, l: ISet<Pt>, x: ISet<Pt>)
+    ensures
+        forall|z: ISet<Pt>| #[trigger] eu_closed(g, a, b, z) && x.subset_of(z) ==> x.union(a.intersect(ex_l(g, x, l))).subset_of(z),
+        forall|z: ISet<Pt>| #[trigger] eu_closed(g, a, b, z) && x.subset_of(z) && a == ISet::<Pt>::full() ==> x.union(ex_l(g, x, l)).subset_of(z),
+{
+    assert forall|z: ISet<Pt>| #[trigger] eu_closed(g, a, b, z) && x.subset_of(z) implies x.union(a.intersect(ex_l(g, x, l))).subset_of(z) by {
+        lemma_pre_mono(g, x, z);
+    }
+    assert forall|z: ISet<Pt>| #[trigger] eu_closed(g, a, b, z) && x.subset_of(z) && a == ISet::<Pt>::full() implies x.union(ex_l(g, x, l)).subset_of(z) by {
+        lemma_pre_mono(g, x, z);
+        assert(a.intersect(ex_l(g, x, l)) =~= ex_l(g, x, l));
+    }
+}
+
 pub open spec fn loops_total(g: &SymbolicAsyncGraph, l: ISet<Pt>) -> bool { unit_of(g).subset_of(ex_l(g, unit_of(g), l)) }
 pub proof fn lemma_total_ax_empty(g: &SymbolicAsyncGraph, l: ISet<Pt>)
     requires loops_total(g, l)
